@@ -572,6 +572,23 @@ SpinBlocksContract(ev, M) ==
      ELSE Clause("forbidden-block-nonzero", bad = {},
                  IF bad = {} THEN {} ELSE {pattern(CHOOSE s \in bad : TRUE)})
 
+(* -- print / import round trip (C18) ---------------------------------------------- *)
+(* pre: the expression, post: import_from_sympy_latex(str(pre)) with the   *)
+(* same assumptions re-applied; ev.a.text_equal: the harness' literal      *)
+(* comparison of the two printed texts                                     *)
+RECURSIVE AllObjs(_)
+AllObjs(objs) ==      \* flattened, operators inside groups included
+  IF objs = <<>> THEN <<>>
+  ELSE LET o == Head(objs) IN
+       (IF o.k \in {"OPS", "NO"} THEN AllObjs(o.pt[1].objs) ELSE <<o>>) \o AllObjs(Tail(objs))
+KindBag(x) == SeqBag(LET os == AllObjs(FlattenObjs(x)) IN [k \in 1..Len(os) |-> <<os[k].k, os[k].nid>>])
+
+RoundTripContract(ev, M) ==
+  ValEq(ev, M, ev.pre, ev.post)
+  \o Clause("tensor-kinds", KindBag(ev.pre) = KindBag(ev.post),
+            "the multiset of (tensor kind, name) changed")
+  \o Clause("text", ev.a.text_equal, "printing the imported expression gives a different text")
+
 (* -- the contract per operation ------------------------------------------ *)
 Contract(ev, M) ==
   CASE ev.op = "valpres" -> ValEq(ev, M, ev.pre, ev.post)
@@ -580,6 +597,7 @@ Contract(ev, M) ==
     [] ev.op = "simplify_unitary" -> UnitaryContract(ev, M)
     [] ev.op = "wicks" -> WicksContract(ev, M)
     [] ev.op = "tensor" -> TensorContract(ev, M)
+    [] ev.op = "roundtrip" -> RoundTripContract(ev, M)
     [] ev.op = "spin" -> SpinContract(ev, M)
     [] ev.op = "spin_blocks" -> SpinBlocksContract(ev, M)
     [] ev.op = "symmetry" -> SymmetryContract(ev, M)
